@@ -310,7 +310,15 @@ def _run(prop, tier, seed, n_override=None):
             if not getattr(mod, "WARMUP_SKIP", None) or not mod.WARMUP_SKIP(wc):
                 _safe_run(mod, wc)
     except _WarmTimeout:
-        print("note: warm-up cut short after its time limit (performance only; results unaffected)")
+        # The alarm may have interrupted a lazy import inside torch (seen once in the soak, seed 704: a half-initialised
+        # `sympy` in sys.modules made every forked worker raise AttributeError from autograd - exit 2, a false harness
+        # error). A process that was interrupted at an arbitrary point is not a safe parent to fork from: start over in
+        # a fresh interpreter, without warm-up.
+        signal.setitimer(signal.ITIMER_REAL, 0)
+        print("note: warm-up exceeded its time limit; restarting without warm-up", flush=True)
+        if os.environ.get("VERIF_WARM") != "0" and sys.argv and os.path.exists(sys.argv[0]):
+            os.environ["VERIF_WARM"] = "0"
+            os.execv(sys.executable, [sys.executable] + sys.argv)
     except Exception as e:  # noqa
         print("warm-up failed:", repr(e))
     finally:
